@@ -132,7 +132,7 @@ func reduceCase(c *rCase, line []byte, out *vh.Out, st *stats) {
 	for _, typ := range []string{"Real64", "Real32"} {
 		for _, sparse := range []bool{false, true} {
 			for _, p := range c.Pts {
-				x0 := pointOf(p)
+				x0 := pointOf(p, typ)
 				al, x := runReduce(c, xs, ys, typ, sparse, x0, c.Ri)
 				fr, _ := runReduce(c, xs, ys, typ, sparse, x0, 0)
 				af, adef, _ := judgeJet(sc, typ, x, al)
